@@ -3,6 +3,7 @@ known-findings classification, sharded workers.  Standard library only (numpy co
 from __future__ import annotations
 
 import collections
+import contextlib
 import hashlib
 import json
 import math
@@ -168,6 +169,21 @@ class Ctx:
 
     def require(self, *counters):
         self.required.extend(counters)
+
+    @contextlib.contextmanager
+    def guarded(self):
+        """Body of one workload case.  An exception that escapes the library is let through the monitors (they never
+        swallow); when a monitor has reported it as a violation the rest of the workload still runs, otherwise it is
+        re-raised (a crash of the harness is inconclusive, never silently dropped)."""
+        before = sum(self.violation_keys.values()) + sum(self.known_hits.values())
+        try:
+            yield
+        except Inconclusive:
+            raise
+        except Exception as ex:
+            if sum(self.violation_keys.values()) + sum(self.known_hits.values()) == before:
+                raise
+            self.hit("workload case aborted by an exception a monitor reported:" + type(ex).__name__)
 
     # ---- result -------------------------------------------------------------------------------------------
     def partial(self):
@@ -335,6 +351,12 @@ def run_shard(module, prop, tier, seed, shard, nshards, replay=None, budget=None
         module.run(ctx)
     except Inconclusive as ex:
         ctx.counts["inconclusive:" + str(ex)[:120]] += 1
+    except Exception as ex:
+        # the workload died on an exception out of the library: the violations already recorded stand (the run is
+        # reported violated with what was seen up to that point); with none recorded it is a crash of the check
+        if not ctx.violation_keys:
+            raise
+        ctx.counts["workload aborted by " + type(ex).__name__ + " after a violation was recorded"] += 1
     return ctx.partial()
 
 
